@@ -7,6 +7,7 @@
 
 use crate::engine::*;
 use crate::enumf::*;
+use crate::faults::{Fault, HdrField};
 use crate::guard::guarded;
 use crate::json::{hex, unhex, J};
 use crate::prng::{fnv1a, Rng, FNV_INIT};
@@ -240,6 +241,7 @@ pub fn enumerate_episode(
             ctx.stats.fault(f.kind_name(), 1);
         }
         ctx.stats.evaluations += 1;
+        ctx.publish_raw(idx, &d, &[]);
         if let Some((class, detail)) = on_delivery(ctx, &base, script, &d, fired) {
             out.push(Violation {
                 class,
@@ -247,6 +249,21 @@ pub fn enumerate_episode(
                 episode: idx,
                 case: J::obj().set("deliver", hex(&d)),
                 provenance: base.provenance().set("base", hex(&base.bytes)).set("faults", J::Arr(script.iter().map(|f| f.to_json()).collect())),
+            });
+        }
+    }
+    // the 16-bit length field, exhaustively: the first SWEEP_EPISODES episodes own 16 values each
+    let sweep_base = crate::traffic::Base { bytes: Vec::new(), source: "length-field-sweep", specs: vec![] };
+    for v in crate::lensweep::values_for(idx) {
+        for fr in crate::lensweep::packet_frames(v, crate::lensweep::is_edge_value(v)) {
+            let script: Script = vec![Fault::Hdr { tile: 0, field: HdrField::Len, val: fr.v }];
+            crate::lensweep::with_frame(&fr, |d| {
+                ctx.stats.fault("hdr-length-sweep", 1);
+                ctx.stats.evaluations += 1;
+                ctx.publish_raw(idx, d, &[]);
+                if let Some((class, detail)) = on_delivery(ctx, &sweep_base, &script, d, true) {
+                    out.push(Violation { class, detail, episode: idx, case: J::obj().set("deliver", hex(d)), provenance: J::obj().set("source", fr.describe()) });
+                }
             });
         }
     }
